@@ -87,7 +87,8 @@ def run(chk, which="C13"):
         pr = ccmon.ProbeRun(pre, cfg[0], cfg[1], batch=400)
         return cfg, pr.run(probes, tag="c13p"), pr
 
-    flav = ["G_trap", "L_plain"] if tier == "quick" else ["G_trap", "L_plain", "G_plain", "Lub_trap"]
+    # (-O0 builds: the compiler may not fold an identity operation such as x * 1, which would quiet a signalling NaN)
+    flav = ["G_trap", "L_plain", "G_O0"] if tier == "quick" else ["G_trap", "L_plain", "G_plain", "Lub_trap", "G_O0", "L_O0"]
     builds = [(rep, fl) for rep in REPS for fl in flav]
     core.reach(chk, emit_tu("double", dict(list(units.items())[:6]), extra[:6]), [["layout"], ["ops", 60, 1], ["rt", 0, 2000, 1, 1, 1]])
 
@@ -132,6 +133,13 @@ def run(chk, which="C13"):
         if fl == flav[0]:
             jobs.append((exe, ["layout"], rep, fl, "layout"))
         jobs.append((exe, ["ops", nrandom, seed], rep, fl, "ops"))
+        if fl in ("G_O0", "L_O0"):
+            # unoptimised build: the NaN regions (signalling NaNs included) and a random sample are enough here
+            if rep == "float":
+                jobs.append((exe, ["rt", 0x7f800000, 2 ** 23 // 64, 64, seed, 0], rep, fl, "rt"))
+                jobs.append((exe, ["rt", 0xff800000, 2 ** 23 // 64, 64, seed, 0], rep, fl, "rt"))
+            elif rep in ("double", "long double"):
+                jobs.append((exe, ["rt", 0, 2 ** 19, 1, seed + 9, 1], rep, fl, "rt"))
         if fl in ("L_plain", "G_plain"):
             if rep == "float":
                 total = 2 ** 32
